@@ -192,5 +192,14 @@ func (c *connection) RouteReply(msg Message) bool {
 		return e.replies.route(msg.SystemBytes(), replyResult{err: &RejectError{Reason: header[3]}})
 	}
 
+	// A control RESPONSE (Select/Deselect/Linktest.rsp) answers a control request only. If the sender
+	// waiting under these System Bytes is a DATA transaction, the response merely collides with it:
+	// report a miss (the transport then answers Reject(TransactionNotOpen), E37 §8.3.20) instead of
+	// completing the data send with a non-data "reply" — which SendDataMessage would surface as a nil
+	// reply with a nil error.
+	if _, isControl := msg.(*ControlMessage); isControl && e.replies.awaitsData(msg.SystemBytes()) {
+		return false
+	}
+
 	return e.replies.route(msg.SystemBytes(), replyResult{msg: msg})
 }
